@@ -166,7 +166,7 @@ fn perturb_hook(site: u32) {
     // other worker reaches a decision site (5, 10: the relation count reached the target and the gap is about
     // to be computed; 14, 15: ECM found a factor and is about to publish it).  That worker is then held for
     // 2 ms while the waiting workers are released and act at full speed on the state as it is at that instant.
-    // A waiting worker gives up after 0.5 s (nothing decided meanwhile).
+    // A waiting worker gives up after 0.15 s (nothing decided meanwhile); nobody waits once SIQS published gap = 0 (site 22).
     // "Stale" mode (seed bits 2 and 3): nothing but the publications are delayed (site 21), each by 1..16 ms.
     if seed & 12 == 12 {
         if site == 21 && PSLEEPS.fetch_add(1, Ordering::Relaxed) < 300 {
@@ -180,11 +180,11 @@ fn perturb_hook(site: u32) {
             let gen = DECISIONS.load(Ordering::SeqCst);
             if WAITERS.fetch_add(1, Ordering::SeqCst) < 2 {
                 let mut spins = 0;
-                while DECISIONS.load(Ordering::SeqCst) == gen && spins < 5000 {
+                while DECISIONS.load(Ordering::SeqCst) == gen && spins < 1500 {
                     std::thread::sleep(std::time::Duration::from_micros(100));
                     spins += 1;
                 }
-                if spins >= 5000 {
+                if spins >= 1500 {
                     // stop ambushing in this run: do not pay the wait again
                     WAITERS.store(1 << 20, Ordering::SeqCst);
                 } else {
@@ -194,6 +194,9 @@ fn perturb_hook(site: u32) {
             } else {
                 WAITERS.fetch_sub(1, Ordering::SeqCst);
             }
+        } else if site == 22 {
+            DECISIONS.fetch_add(1, Ordering::SeqCst);
+            WAITERS.store(1 << 20, Ordering::SeqCst);
         } else if site == 21 {
             // half of the gap publications are delayed by 8 ms (stale by the time they are stored)
             if h & 1 == 0 && PSLEEPS.fetch_add(1, Ordering::Relaxed) < 200 {
